@@ -509,3 +509,20 @@ func VerifC16_SyntaxError() {
 	}
 	zzverif.Reach("recorded")
 }
+
+// VerifC08_ListenerRecovery: error-recovery shapes - a required part is missing
+// from the text, and from the tree the walker hands to the listener.  The tree
+// is an over-approximation of what the parser's recovery builds; only what
+// reproduces natively (real parser on the text) counts.  Monitor: no panic; and
+// a model is never returned together with ... nothing: with the part missing
+// the parser has reported a syntax error, so the transform must fail.
+func VerifC08_ListenerRecovery() {
+	d := genDoc()
+	d.omit = []string{"module-name", "schema-version", "type-name", "relation-name", "relation-def", "condition-name", "param-type"}[zzverif.Choose("missing", 7)]
+	if d.omit == "module-name" {
+		d.module = "m"
+	}
+	l, _, _ := verifParseDoc(d)
+	_ = l
+	zzverif.Reach("walked")
+}
